@@ -32,6 +32,8 @@ VARIANTS = [
     B("dep-stats-sum-of-ends", "self.t_b05 = time05[-1] - time05[0]", "self.t_b05 = time05[-1] + time05[0]", "R-ENDS", prop="C10", file="eqsig/single.py"),
     B("dep-stats-no-abs", "        abs_motion = abs(self.values)\n\n        time = np.arange(self.npts) * self.dt", "        abs_motion = self.values\n\n        time = np.arange(self.npts) * self.dt", "R-REL", prop="C10", file="eqsig/single.py"),
     B("dep-stats-time-over-dt", "        time = np.arange(self.npts) * self.dt\n        # Bracketed duration", "        time = np.arange(self.npts) / self.dt\n        # Bracketed duration", "R-REL", prop="C10", file="eqsig/single.py"),
+    B("libns-generic-cav-trapz", "    return cumulative_trapezoid(abs_acc, dx=acc_sig.dt, initial=0)", "    return np.cumtrapz(abs_acc, dx=acc_sig.dt, initial=0)", "R-LIBNS",
+      prop="C09", file="eqsig/im.py"),
     B("turn-pair-shape", "diff[1:] * diff[:-1] < 0", "diff[1:] * diff[:-2] < 0", "R-IDX"),
     B("turn-pair-not-adjacent", "diff[1:] * diff[:-1] < 0", "diff[2:] * diff[:-2] < 0", "R-IDX"),
     B("turn-pair-empty", "diff[1:] * diff[:-1] < 0", "diff[1:] * diff[:-0] < 0", "R-IDX"),
